@@ -65,7 +65,7 @@ json.dump(summary, open(os.path.join(src, "neutral_summary.json"), "w"), indent=
 if "--save" in sys.argv:
     for d in dirs:
         tag = f"{os.path.basename(os.path.dirname(d))}-{os.path.basename(d)}"
-        out = os.path.join(VERIF, "neutral", tag)
+        out = os.path.join(VERIF, "neutral", os.path.basename(os.path.dirname(d)), os.path.basename(d))
         os.makedirs(out, exist_ok=True)
         for f in ("patch.diff", "meta.json", "equiv.py"):
             if os.path.exists(os.path.join(d, f)):
